@@ -6,7 +6,9 @@ import ufl.classes as C
 
 def atoms_hook(w, e, comp, env):
     if isinstance(e, C.Coefficient):
-        if e.is_cellwise_constant():
+        # spatially constant iff the element's polynomial space is P0 (decided here from the super-degree, not by asking the library's
+        # is_cellwise_constant, which is part of the code under check)
+        if e.ufl_element().embedded_superdegree == 0:
             w.spatial_const.add(f"w{e.count()}")
         return w.symbol(f"w{e.count()}", comp)
     if isinstance(e, C.Argument):
